@@ -236,13 +236,12 @@ def check_event(res: Res, g: G, yg, m, items, case):
                 res.outcomes["simplify_wrong"] += 1
             else:
                 res.outcomes["simplify_ok"] += 1
-    # (fact): only for queries in the form SIMPLIFY produces: distinct variables-in-worlds, no reflexive subscript, and
-    # interventionally minimal (every subscript is an ancestor of the variable once edges into the subscripts are cut)
+    # (fact): queries over distinct variables-in-worlds without reflexive subscripts (redundant subscripts are allowed:
+    # the factorisation must recognise a query variable whatever irrelevant subscripts it carries)
     if len({(it[0], it[1]) for it in items}) != len(items):
         return
     for v, subs, _ in items:
-        xs = [n for n, _ in subs]
-        if v in xs or not set(xs) <= set(ancestors_inc(remove_in_edges(g, xs), [v])):
+        if v in [n for n, _ in subs]:
             return
     res.transitions += 1
     fkey2 = fkey_of("C19f", case["graph"], case["event"])
